@@ -496,8 +496,12 @@ pub fn snapshot_race(v: &Verdicts, rounds: usize) -> (u64, u64) {
                 ON_SNAPSHOT_THREAD.with(|f| f.set(true));
                 let mut a = Session::new();
                 a.call(&dbs2, "auth admin pwd");
+                let mut n = 0u64;
                 while !stop2.load(Ordering::Acquire) {
-                    a.call(&dbs2, "snapshot false one");
+                    // every third snapshot reclaims space (it rewrites the files and forgets the removed keys: one that a
+                    // writer has set again since the snapshot took its copy must stay)
+                    n += 1;
+                    a.call(&dbs2, if n % 3 == 0 { "snapshot true one" } else { "snapshot false one" });
                     nundb::disk_ops::verif_declutter(&dbs2);
                     snaps2.fetch_add(1, Ordering::AcqRel);
                 }
@@ -553,6 +557,140 @@ pub fn snapshot_race(v: &Verdicts, rounds: usize) -> (u64, u64) {
     }
     nundb::verif::set_point_callback(None);
     (done, overlapped)
+}
+
+/// Directed part: client commands that take effect at a chosen moment of a snapshot - between two keys the snapshot
+/// thread writes (the hook point before it marks a key as stored; no lock is held there, and the snapshot thread holds
+/// none across keys, so this is an interleaving a client on another thread can produce). Per case: keys persisted by a
+/// first snapshot, some of them removed or written again, then a snapshot (reclaiming or not) during which - after the
+/// n-th key was stored - a session removes / sets / sets again what the snapshot has copied; then one more incremental
+/// snapshot with nobody writing, restart, comparison. Judged like every history: memory keeps what was acknowledged,
+/// the restart restores the image of the last snapshot.
+pub fn snapshot_injection(v: &Verdicts, seed0: u64, cases: usize) -> (u64, u64, BTreeSet<String>) {
+    use std::sync::atomic::{AtomicUsize, Ordering};
+    let mut rng = Rng::new(seed0 ^ 0x1213);
+    let (mut done, mut fired_cases) = (0u64, 0u64);
+    let mut shapes = BTreeSet::new();
+    for c in 0..cases {
+        let dir = fresh_dir("c06-inj");
+        let node = Run::start_node(&dir, false);
+        let dbs = node.dbs.clone();
+        let mut adm = Session::new();
+        adm.call(&dbs, "auth admin pwd");
+        adm.call(&dbs, "create-db one tok-one none");
+        adm.call(&dbs, "use-db one tok-one");
+        let nkeys = 12;
+        for i in 0..nkeys {
+            adm.call(&dbs, &format!("set k{} first{}", i, i));
+        }
+        adm.call(&dbs, "snapshot false one");
+        nundb::disk_ops::verif_declutter(&dbs);
+        // state of each key when the snapshot under test starts: 0 stored and untouched, 1 written again, 2 removed, 3 new
+        let mut expected: BTreeMap<String, Option<String>> = BTreeMap::new();
+        let mut before = vec![];
+        for i in 0..nkeys {
+            let st = rng.below(4);
+            before.push(st);
+            let k = format!("k{}", i);
+            match st {
+                1 => {
+                    adm.call(&dbs, &format!("set {} again{}", k, i));
+                    expected.insert(k, Some(format!("again{}", i)));
+                }
+                2 => {
+                    adm.call(&dbs, &format!("remove {}", k));
+                    expected.insert(k, None);
+                }
+                _ => {
+                    expected.insert(k, Some(format!("first{}", i)));
+                }
+            }
+        }
+        for i in 0..3 {
+            adm.call(&dbs, &format!("set n{} new{}", i, i));
+            expected.insert(format!("n{}", i), Some(format!("new{}", i)));
+        }
+        let reclaim = c % 3 != 2;
+        let fire_at = rng.range(1, 6);
+        // what the session does in the middle of the snapshot: one command per key
+        let mut script: Vec<(String, Option<String>)> = vec![];
+        for i in 0..nkeys {
+            let k = format!("k{}", i);
+            match rng.below(4) {
+                0 => {
+                    script.push((format!("set {} mid{}", k, i), Some(format!("mid{}", i))));
+                    expected.insert(k, Some(format!("mid{}", i)));
+                }
+                1 => {
+                    script.push((format!("remove {}", k), None));
+                    expected.insert(k, None);
+                }
+                _ => {}
+            }
+        }
+        let shape: BTreeSet<String> = (0..nkeys)
+            .filter_map(|i| script.iter().find(|(l, _)| l.split(' ').nth(1) == Some(&format!("k{}", i))).map(|(l, _)| format!("{}:{}:{}", if reclaim { "reclaim" } else { "incremental" }, ["stored", "written-again", "removed", "new"][before[i] as usize], l.split(' ').next().unwrap())))
+            .collect();
+        let count = std::sync::Arc::new(AtomicUsize::new(0));
+        let fired = std::sync::Arc::new(AtomicUsize::new(0));
+        {
+            let (count, fired, dbs, script) = (count.clone(), fired.clone(), dbs.clone(), script.clone());
+            nundb::verif::set_point_callback(Some(std::sync::Arc::new(move |site: &str| {
+                if site == "db.map:set_value_version" && ON_SNAPSHOT_THREAD.with(|f| f.get()) {
+                    if count.fetch_add(1, Ordering::SeqCst) + 1 == fire_at {
+                        ON_SNAPSHOT_THREAD.with(|f| f.set(false));
+                        let mut s = Session::new();
+                        s.call(&dbs, "use-db one tok-one");
+                        for (line, _) in &script {
+                            s.call(&dbs, line);
+                        }
+                        s.disconnect(&dbs);
+                        fired.fetch_add(1, Ordering::SeqCst);
+                        ON_SNAPSHOT_THREAD.with(|f| f.set(true));
+                    }
+                }
+            })));
+        }
+        adm.call(&dbs, &format!("snapshot {} one", reclaim));
+        ON_SNAPSHOT_THREAD.with(|f| f.set(true));
+        nundb::disk_ops::verif_declutter(&dbs);
+        ON_SNAPSHOT_THREAD.with(|f| f.set(false));
+        nundb::verif::set_point_callback(None);
+        done += 1;
+        if fired.load(Ordering::SeqCst) == 0 {
+            drop(node);
+            let _ = std::fs::remove_dir_all(&dir);
+            continue;
+        }
+        fired_cases += 1;
+        shapes.extend(shape);
+        let case = json!({"case": c, "snapshot": if reclaim { "reclaim" } else { "incremental" }, "after_stored_keys": fire_at, "state_of_k0_k11_before": before, "commands_in_the_middle": script.iter().map(|(l, _)| l.clone()).collect::<Vec<_>>()});
+        let mem = image_of(&node, "one").map(|i| i.keys).unwrap_or_default();
+        let wrong: Vec<serde_json::Value> = expected.iter().filter(|(k, val)| mem.get(*k).map(|x| &x.0) != val.as_ref()).map(|(k, val)| json!([k, val, mem.get(k)])).collect();
+        if !wrong.is_empty() {
+            v.report(json!({"check": "snapshot-injection", "problem": "memory-differs-from-last-acknowledged-commands", "snapshot": if reclaim { "reclaim" } else { "incremental" }}), json!({"case": case, "key_expected_memory": wrong}));
+            continue;
+        }
+        adm.call(&dbs, "snapshot false one");
+        nundb::disk_ops::verif_declutter(&dbs);
+        let want = image_of(&node, "one");
+        drop(node);
+        if let Err(why) = load_probe(&dir) {
+            v.report(json!({"check": "restart-fails", "how": why.split(':').next().unwrap_or("").to_string(), "after": format!("commands-in-the-middle-of-a-{}-snapshot", if reclaim { "reclaim" } else { "incremental" })}), json!({"case": case, "msg": why}));
+            continue;
+        }
+        let node2 = Run::start_node(&dir, false);
+        let got = image_of(&node2, "one");
+        if got != want {
+            let (w, g) = (want.map(|i| i.keys).unwrap_or_default(), got.map(|i| i.keys).unwrap_or_default());
+            let differing: Vec<serde_json::Value> = w.iter().filter(|(k, val)| g.get(*k) != Some(*val)).take(5).map(|(k, val)| json!([k, val, g.get(k)])).collect();
+            let extra: Vec<&String> = g.keys().filter(|k| !w.contains_key(*k)).take(5).collect();
+            v.report(json!({"check": "restore", "kind": "dataset-differs", "detail": format!("after-commands-in-the-middle-of-a-{}-snapshot", if reclaim { "reclaim" } else { "incremental" })}), json!({"case": case, "key_snapshotted_restored": differing, "keys_only_after_restart": extra}));
+        }
+        drop(node2);
+        let _ = std::fs::remove_dir_all(&dir);
+    }
+    (done, fired_cases, shapes)
 }
 
 thread_local! {
@@ -624,6 +762,8 @@ pub fn run(tier: &str) -> i32 {
     let s = stats.into_inner().unwrap();
     let (race_rounds, race_overlapped) = snapshot_race(&v, if tier == "thorough" { 300 } else { 25 });
     ev.set("free_running_snapshot_race", json!({"rounds": race_rounds, "rounds_with_at_least_3_snapshots_completed_while_the_writers_ran": race_overlapped}));
+    let (inj_cases, inj_fired, inj_shapes) = snapshot_injection(&v, seed(), if thorough { 6000 } else { 400 });
+    ev.set("commands_in_the_middle_of_a_snapshot", json!({"cases": inj_cases, "cases_in_which_the_commands_ran_between_two_stored_keys": inj_fired, "distinct_snapshot_kind_x_key_state_x_command": inj_shapes.len(), "shapes": inj_shapes.iter().cloned().collect::<Vec<_>>()}));
     ev.evaluations = s.histories;
     ev.distinct_nontrivial = s.nontrivial.len() as u64;
     ev.rule = format!("histories = all sequences of length {} over a 10-step alphabet that contain a snapshot request ({} systematic) + {} seeded random sequences of length 5-40 over 2 databases x 3 keys x 6 value classes (empty, 1 byte, 7 bytes, 300+ bytes, multi-byte UTF-8, small integers), half of them with the real replication loop/oplog running; every history ends with declutter + restart + comparison; non-trivial = distinct history that completed a snapshot and issued at least one write/remove/increment on a key already persisted (status Ok/Updated/Deleted)", depth, systematic, n_random);
